@@ -12,6 +12,7 @@
 // - メンテナンス性の向上
 // ============================================================================
 
+#include "src/common/stack_guard.h"
 #include "dispatcher.h"
 #include "../../../../common/ast.h"
 #include "../../../../common/debug.h"
@@ -42,6 +43,10 @@ ExpressionDispatcher::ExpressionDispatcher(
       interpreter_(expression_evaluator.get_interpreter()) {}
 
 int64_t ExpressionDispatcher::dispatch_expression(const ASTNode *node) {
+    if (cb_stack_guard::exhausted()) {
+        throw std::runtime_error(
+            "Stack limit reached: expression nesting or recursion too deep");
+    }
     if (!node) {
         debug_msg(DebugMsgId::EXPR_EVAL_START,
                   "Null node in expression evaluation");
